@@ -633,9 +633,14 @@ fn with_nth(t: &mut T, n: &mut usize, f: &mut dyn FnMut(&mut T)) -> bool {
 
 /// plant one random mutation that *may* violate the contract at a random node
 pub fn plant(rng: &mut Rng, t: &T) -> (T, &'static str) {
+    let kind = rng.below(12);
+    plant_kind(rng, t, kind)
+}
+
+/// plant the mutation of the given kind (0..12) at a random node
+pub fn plant_kind(rng: &mut Rng, t: &T, kind: u64) -> (T, &'static str) {
     let mut out = t.clone();
     let n = count_nodes(t);
-    let kind = rng.below(12);
     let mut idx = rng.below(n as u64) as usize;
     let name: &'static str = match kind {
         0 => "bad-weight",
